@@ -42,13 +42,23 @@ def gen_case(rng, fmt=None):
            'O%d' % rng.randrange(2)]        # O1: display options set before the format is selected
     if fmt == 'json': cfg += ['c%d' % rng.randrange(2), 'S%d' % rng.randrange(2), 'F%d' % rng.randrange(2)]
     w = gen_w(rng, rng.choice([0, 1, 2, 3, 3]), [1])
-    ops = []; nsp = 0; stack = []; open_spans = []
+    ops = []; nsp = 0; stack = []; open_spans = []; declared = {}
     for _ in range(rng.choice([5, 10, 18])):
         r = rng.random()
         if r < 0.45: ops.append('ev %d %d %s' % (rng.randrange(1, 6), rng.randrange(0, 3), gen_fields(rng)))
         elif r < 0.6 and len(stack) < 3:
-            ops.append('sp %d %d %d %s %s' % (nsp, rng.randrange(1, 6), rng.randrange(0, 3), hx(rng.choice(['outer', 'inner', 'req', 'job']) + str(nsp)), gen_fields(rng, False)))
+            fs = gen_fields(rng, False)
+            declared[nsp] = [] if fs == '-' else [bytes.fromhex(kv.split('=')[0]).decode() for kv in fs.split(',')]
+            ops.append('sp %d %d %d %s %s' % (nsp, rng.randrange(1, 6), rng.randrange(0, 3), hx(rng.choice(['outer', 'inner', 'req', 'job']) + str(nsp)), fs))
             ops.append('en %d' % nsp); stack.append(nsp); nsp += 1
+        elif r < 0.66 and stack and rng.random() < 0.6:
+            # a later record on a span in scope: a field it declared gets a (new) value; records written afterwards show it
+            k = rng.choice(stack)
+            names = declared.get(k, [])
+            if names:
+                nm = rng.choice(names)
+                v = rng.choice(['i%d' % rng.randrange(1000, 2000), 's' + hx(rng.choice(['later', 'v2'])), 'b%d' % rng.randrange(2)])
+                ops.append('rc %d %s=%s' % (k, hx(nm), v))
         elif r < 0.75 and stack:
             k = stack.pop(); ops.append('ex %d' % k); ops.append('cl %d' % k)
         elif r < 0.82: ops.append('pe %d %d' % (rng.randrange(1, 6), rng.randrange(0, 3)))
@@ -98,6 +108,10 @@ def judge(case, out):
         if t[0] == 'ev': level = int(t[1]); fields = field_texts(t[3])
         elif t[0] == 'sp': spans[int(t[1])] = (bytes.fromhex(t[4]).decode(), field_texts(t[5]), int(t[2])); level = int(t[2])
         elif t[0] in ('en', 'ex', 'cl') and int(t[1]) in spans: level = spans[int(t[1])][2]
+        elif t[0] == 'rc' and int(t[1]) in spans:
+            nm, fs, lv = spans[int(t[1])]
+            new = field_texts(t[2])
+            spans[int(t[1])] = (nm, [f for f in fs if f[0] not in [n[0] for n in new]] + new, lv)
         if t[0] == 'en' and int(t[1]) in spans: stack.append(int(t[1]))
         scope = [spans[k] for k in stack]
         if t[0] == 'sp': scope = scope + [spans[int(t[1])]]
@@ -115,6 +129,24 @@ def judge(case, out):
             if fmt == 'json':
                 try: j = json.loads(text)
                 except Exception: return 'bad json-unparsable'
+                # the span objects show, for every span in scope, the value recorded LAST for each of its fields
+                def shown(obj, fs):
+                    for (fn, fv, kind) in fs:
+                        if fn not in obj: return 'bad json-span-field-missing:' + fn
+                        got = obj[fn]
+                        want = int(fv) if kind == 'i' else (fv == 'true') if kind == 'b' else fv
+                        if kind == 'd': continue
+                        if got != want: return 'bad json-span-field-stale:%s=%r want %r' % (fn, got, want)
+                    return None
+                if isinstance(j.get('spans'), list) and t[0] == 'ev':
+                    if len(j['spans']) != len(scope): return 'bad json-span-list-length'
+                    for obj, (nm, fs, _) in zip(j['spans'], scope):
+                        if obj.get('name') != nm: return 'bad json-span-list-order'
+                        e = shown(obj, fs)
+                        if e: return e
+                if isinstance(j.get('span'), dict) and t[0] == 'ev' and scope:
+                    e = shown(j['span'], scope[-1][1])
+                    if e: return e
                 continue
             # spans in scope, in nesting order
             pos = -1
